@@ -217,7 +217,7 @@ def feq(a, b, tol=1e-9):
     return abs(a - b) <= tol * max(1.0, abs(a), abs(b))
 
 
-def diff_obs(exp, obs, tol=1e-9, skip_out=()):
+def diff_obs(exp, obs, tol=1e-9, skip_out=(), skip_prev=()):
     """exp: Observe record emitted by TLC (XReal triples); obs: observe(e).  Returns None or a description."""
     for o, (xs, ys) in enumerate(zip(exp["fuzzy"], obs["fuzzy"])):
         if len(xs) != len(ys):
@@ -239,7 +239,7 @@ def diff_obs(exp, obs, tol=1e-9, skip_out=()):
         if not feq(to_float(x), y, tol):
             return f"output[{o}]: {y}, expected {to_float(x)}"
     for o, (x, y) in enumerate(zip(exp["prev"], obs["prev"])):
-        if o in skip_out:
+        if o in skip_out or o in skip_prev:
             continue
         if not feq(to_float(x), y, tol):
             return f"previous[{o}]: {y}, expected {to_float(x)}"
